@@ -7,12 +7,15 @@
 mod drv_bits;
 mod drv_build;
 mod drv_decode;
+mod drv_fields;
 mod msgen;
 mod special;
 mod special_msm;
 mod drv_frame;
 mod drv_rt;
+mod fieldlib;
 mod frames;
+mod generated;
 mod util;
 mod value;
 
@@ -37,6 +40,8 @@ fn main() {
         ("record", "decode") => drv_decode::rec_decode(&a, &mut out),
         ("record", "classify") => drv_decode::rec_classify(&a, &mut out),
         ("record", "roundtrip") => drv_rt::rec_roundtrip(&a, &mut out),
+        ("record", "fields") => drv_fields::rec_fields(&a, &mut out),
+        ("record", "probes") => drv_fields::rec_probes(&a, &mut out),
         _ => {
             eprintln!("usage: rtcm_conf record|replay <family> key=value...");
             std::process::exit(2);
